@@ -1,5 +1,17 @@
 import BigtreeModel.Proto
-/-! Driver handler for property C20: one case (token list) in, one canonical line out. -/
+import BigtreeModel.Drv.C01
+/-! Driver handler for property C20: dispatches on `cls=`.  For `base|node` the history of the line
+(`asrt=` is ignored) is run with the checks on and with the checks off:
+`on <trace> || off <trace>`. -/
 namespace Drv.C20
-def handle (_toks : List String) : String := "unimplemented"
+open Drv.C01
+def handle (toks : List String) : String :=
+  match Proto.kv toks "cls" with
+  | some "base" | some "node" =>
+    match parseCase toks with
+    | none => "bad-op"
+    | some c =>
+      "on " ++ showTrace (Store.trace { c.cfg with assertions := true } c.init c.ops)
+        ++ " || off " ++ showTrace (Store.trace { c.cfg with assertions := false } c.init c.ops)
+  | _ => "bad-op"
 end Drv.C20
